@@ -12,6 +12,12 @@ Chain of the argument:
 The correspondence check (tools/impl_theory.py) establishes, on every run, that the literal valuation
 of the real implementation in every answer set solves `eqn` on all reachable pairs, and that each
 theory atom equals its root formula.
+  * `clauses_bool` / `clauses_tel` / `clauses_eq`  the clause level (TelModel/Clauses.lean, transcribing `make_equal`,
+                        `make_disjunction`, `BooleanFormula.do_translate`, `TelFormula._translate`): the integrity constraints
+                        written for a connective, an induction step of since/trigger/until/release (binary or unary) or an
+                        equivalence are not violated iff the formula's literal has the value of the one-step equation
+                        (`binExpr` / `telStep` of `eqn`); the harness compares every such step of every run with the
+                        model's clauses, literal for literal.
   * `theory_atoms_total_world`  the lifting to stable models, for any host program (generic answer-set programs,
                         TelProofs/Meta/DefExt.lean): when the program mentions the theory-atom literals only in rule
                         bodies and the translation adds only choices on fresh atoms, integrity constraints and
@@ -24,6 +30,7 @@ theory atom equals its root formula.
 import TelProofs.Tseitin
 import TelProofs.DocEq
 import TelProofs.Meta.DefExt
+import TelProofs.ClauseProofs
 
 namespace TelProofs.C03
 open TelSpec TelModel TelProofs
@@ -73,6 +80,30 @@ theorem theory_atoms_total_world {α : Type} [DecidableEq α] (P E : List (DefEx
     (hP : ∀ r ∈ P, ∀ a ∈ r.head, N a = false) (hE : ∀ r ∈ E, DefExt.EShape N r) (X : DefExt.Interp α) :
     DefExt.Stable (P ++ E) X ↔ (DefExt.Good E N X ∧ DefExt.Stable (DefExt.evalProg N X P) (DefExt.cut N X)) :=
   DefExt.stable_iff_eval P E N hP hE X
+
+/-- clause level: Boolean connectives -/
+theorem clauses_bool (v : Nat → Bool) (op : String) (lit lhs rhs : Int) (h0 : lit ≠ 0) (h1 : lhs ≠ 0) (h2 : rhs ≠ 0)
+    (hop : op = "&" ∨ op = "|" ∨ op = "<-" ∨ op = "->" ∨ op = "<>") :
+    clausesOk v (boolClauses op lit lhs rhs) = (litTrue v lit == boolVal op (litTrue v lhs) (litTrue v rhs)) :=
+  boolClauses_ok v op lit lhs rhs h0 h1 h2 hop
+
+/-- clause level: one induction step of `<?`, `<*`, `>?`, `>*` (binary: `lhs = some _`, unary: `none`) -/
+theorem clauses_tel (v : Nat → Bool) (dual : Bool) (lit : Int) (lhs : Option Int) (rhs pre : Int)
+    (h0 : lit ≠ 0) (h1 : ∀ l, lhs = some l → l ≠ 0) (h2 : rhs ≠ 0) (h3 : pre ≠ 0) :
+    clausesOk v (telClauses dual lit lhs rhs pre) =
+      (litTrue v lit == telVal dual (lhs.map (litTrue v)) (litTrue v rhs) (litTrue v pre)) :=
+  telClauses_ok v dual lit lhs rhs pre h0 h1 h2 h3
+
+/-- clause level: `make_equal` (theory-atom literals, placeholders of `>` beyond the horizon) -/
+theorem clauses_eq (v : Nat → Bool) (a b : Int) (ha : a ≠ 0) (hb : b ≠ 0) :
+    clausesOk v (makeEqual a b) = (litTrue v a == litTrue v b) := makeEqual_ok v a b ha hb
+
+/-- the clause-level values are those of the equations -/
+theorem clause_values_are_equations (op : String) (a b : BExpr) (dual : Bool) (l : Option BExpr) (r p : BExpr)
+    (tr : Trace) (lv : Int → Bool) (val : BForm → Nat → Bool) :
+    (binExpr op a b).eval tr lv val = boolVal op (a.eval tr lv val) (b.eval tr lv val) ∧
+    (telStep dual l r p).eval tr lv val = telVal dual (l.map fun e => e.eval tr lv val) (r.eval tr lv val) (p.eval tr lv val) :=
+  ⟨boolVal_binExpr op a b tr lv val, telVal_telStep dual l r p tr lv val⟩
 
 /-! ### non-vacuity -/
 
